@@ -13,19 +13,19 @@ def step (st : St) : List String → St × String
     match parseCps s with
     | some s => ({ st with reOk := s :: st.reOk }, "ok")
     | none => (st, "bad-op")
-  | ["er.edit", mn, mx, terms, useRe, text] =>
-    match mn.toNat?, mx.toNat?, parseCps text with
-    | some mn, some mx, some text =>
+  | ["er.edit", clo, chi, mn, mx, terms, useRe, text] =>
+    match clo.toNat?, chi.toNat?, mn.toNat?, mx.toNat?, parseCps text with
+    | some clo, some chi, some mn, some mx, some text =>
       let ts : Option (Option (List Nat)) := if terms == "none" then some none else (parseCps terms).map some
       match ts with
       | none => (st, "bad-op")
       | some ts =>
-        let cfg : EditCfg := { minLen := mn, maxLen := mx, terminalSet := ts,
+        let cfg : EditCfg := { ctx := (clo, chi), minLen := mn, maxLen := mx, terminalSet := ts,
                                regexOk := if useRe == "1" then some (fun s => st.reOk.contains s) else none }
         match editRules cfg text with
         | some t => (st, "text " ++ showCps t)
         | none => (st, "raise")
-    | _, _, _ => (st, "bad-op")
+    | _, _, _, _, _ => (st, "bad-op")
   | ["er.tokens", text] =>
     match parseCps text with
     | some t => (st, " ".intercalate ("tok" :: (tokenize t).map showCps))
